@@ -243,7 +243,9 @@ Ltac brk H :=
 Lemma handle_frame : forall O t data st ended evs st',
   handle_rp_frame fx O client t data st ended = HVal evs st' ->
   s_id st' = s_id st /\ s_cur st' = s_cur st /\ H3Parse.s_ended st' = H3Parse.s_ended st
-  /\ (t = 0 -> H3Parse.s_hstate st' = 1).
+  /\ (t = 0 -> H3Parse.s_hstate st' = 1)
+  /\ s_blocked st' = s_blocked st /\ s_btype st' = s_btype st
+  /\ (t <> 1 -> H3Parse.s_hstate st' = H3Parse.s_hstate st).
 Proof.
   intros O t data st ended evs st' H. unfold handle_rp_frame, endmark in H.
   brk H; inversion H; subst; simp_proj; repeat split; try reflexivity; intros; lia.
@@ -252,7 +254,8 @@ Qed.
 Lemma handle_blocked : forall O t data st ended st',
   handle_rp_frame fx O client t data st ended = HBlocked st' ->
   H3Parse.s_hstate st' = H3Parse.s_hstate st /\ s_clen st' = s_clen st /\ s_expect st' = s_expect st
-  /\ s_id st' = s_id st /\ s_cur st' = s_cur st /\ H3Parse.s_ended st' = H3Parse.s_ended st /\ t <> 0.
+  /\ s_id st' = s_id st /\ s_cur st' = s_cur st /\ H3Parse.s_ended st' = H3Parse.s_ended st /\ t <> 0
+  /\ s_blocked st' = s_blocked st /\ s_btype st' = s_btype st.
 Proof.
   intros O t data st ended st' H. unfold handle_rp_frame, endmark in H.
   brk H; inversion H; subst; simp_proj; repeat split; try reflexivity; lia.
